@@ -28,9 +28,9 @@ ASSUMPTIONS = [
     "thread interleavings inside one task are not executed: the claim rests on whole-task permutations plus disjoint "
     "write sets (and CPython's atomic dict item assignment)",
     "real joblib backends sample whatever the OS schedules",
-    "known findings D7 (TreeBandit with Thompson / epsilon>0 draws from the bandit's shared generator) and D8 (LinTS "
-    "under a neighbourhood policy keeps un-reseeded per-arm generators) are excluded by construction while their "
-    "replays reproduce; the number of excluded configurations is reported",
+    "known finding D7 (TreeBandit with Thompson / epsilon>0 draws from the bandit's shared generator) is excluded by "
+    "construction while its replay reproduces; the number of excluded configurations is reported (D8, LinTS under "
+    "neighbourhood policies, was repaired and is generated again)",
 ]
 NT_FLOOR = 0.2
 
